@@ -332,7 +332,7 @@ class Gaussian(Distribution):
             else:
                 perturbation = spa.linalg.spsolve(self.sqrtprec, e)
         else:
-            if np.allclose(self.sqrtprec, np.tril(self.sqrtprec)): # matrix is triangular
+            if np.count_nonzero(np.triu(self.sqrtprec, 1)) == 0: # matrix is lower triangular (exact test: allclose's absolute tolerance misjudges factors with tiny entries)
                 perturbation = splinalg.solve_triangular(self.sqrtprec, e, lower=True)
             else:
                 perturbation = splinalg.solve(self.sqrtprec, e)
